@@ -254,6 +254,12 @@ class ProgGen:
                 nm = self.name(rng.choice(["t", "acc", "tmp"]))
                 nd = rng.choice([0, 0, 1, 1, 2])
                 dims = [rng.choice(CONST_EXTENTS + ctx["sizes"]) for _ in range(nd)]
+                if ctx["sizes"] and nd and rng.random() < 0.3:
+                    # padded / scaled symbolic extents (what tiling leaves behind)
+                    sz = rng.choice(ctx["sizes"])
+                    dims[rng.randrange(nd)] = rng.choice(["%s + %d" % (sz, rng.choice([1, 2, 4, 8])),
+                                                          "%d * %s" % (rng.choice([2, 4]), sz),
+                                                          "%s + %s" % (sz, sz)])
                 b = Buf(nm, dims)
                 if dims:
                     lines.append("%s%s: R[%s]" % (ind, nm, ", ".join(map(str, dims))))
